@@ -12,6 +12,7 @@ Leg C2S : every recorded (schedule, filters, mode, filtered schedule, allocation
           validated by TLC against TraceTaskFilter.tla: L1 = the C11 clauses (Runnable = the C02 clauses on the recorded
           allocation of the filtered schedule), L2 = equality with the transcription.
 """
+import json
 import os
 import random
 
@@ -49,7 +50,7 @@ def run_case(tid, case):
             raise
         except Exception as ex:  # pylint: disable=broad-except
             # the allocator cannot even allocate the filtered schedule: not runnable
-            it.update({"m": [], "jps": [], "tpj": [], "walk": "fail", "progress": "allocator %s: %s" % (type(ex).__name__, ex)})
+            it.update({"m": [], "jps": [], "tpj": [], "walk": "fail", "progress": str(ex) if isinstance(ex, rs.ObservedCrash) else "allocator %s: %s" % (type(ex).__name__, ex)})
         items.append(it)
     return items
 
@@ -106,7 +107,12 @@ def validate(items, out, name="c11trace"):
     index = {it["id"]: it for it in ok}
     if ok:
         payload = [{k: v for k, v in it.items() if k not in ("case", "progress")} for it in ok]
-        verdicts = tracecheck.validate(["Allocator", "TaskFilter"], "TraceTaskFilter", "TraceTaskFilter.cfg", payload, name=name, chunk=8000, timeout=1500)
+        if any(len(it["id"]) > 12 for it in payload):
+            raise tlc.MachineryError("trace ids must stay short (TLC wraps long verdict lines)")
+        verdicts = tracecheck.validate(["Allocator", "TaskFilter"], "TraceTaskFilter", "TraceTaskFilter.cfg", payload + [CANARY], name=name, chunk=None, timeout=1500)
+        got = sorted({c for _, cs in verdicts.l1.pop("canary", []) for c in cs})
+        if got != ["NoEmptyParallel", "Runnable", "Runnable:DriverWalksEveryStep", "Runnable:OneEntryPerStep"] or "canary" in verdicts.l2:
+            raise tlc.MachineryError("trace validation lost verdicts: the known-bad canary item was reported as %s" % got)
         if out is not None:
             out.traces_validated += verdicts.accepted(len(ok))
             for tid in verdicts.l2:
@@ -116,6 +122,21 @@ def validate(items, out, name="c11trace"):
             cl = sorted({c for _, cs in fails for c in cs})
             bad.append((index[tid], [c for c in cl if ":" not in c], [c for c in cl if ":" in c]))
     return bad
+
+
+# known-bad item appended to every validation run: guards against verdict lines getting lost
+CANARY = {
+    "id": "canary",
+    "s": [{"k": "par", "cap": 0, "tasks": [{"k": "task", "name": "a", "type": "x", "tags": [], "clients": 1, "cp": False, "acp": False}]}],
+    "F": [{"k": "name", "v": "a"}],
+    "mode": "exclude",
+    "l2": True,
+    "out": [{"k": "par", "cap": 0, "tasks": []}],
+    "m": [[{"k": "jp", "id": 0, "cby": [], "any": []}, {"k": "jp", "id": 1, "cby": [], "any": []}]],
+    "jps": [{"k": "jp", "id": 0, "cby": [], "any": []}, {"k": "jp", "id": 1, "cby": [], "any": []}],
+    "tpj": [],
+    "walk": "fail",
+}
 
 
 def _short(s):
@@ -157,28 +178,40 @@ def run(ctx, out):
     out.extra["model_selftest"] = "pre-fix variant (DropEmptyParallel = FALSE: emptied parallel stays in the schedule) violates PropertyHolds in the model, as expected"
 
     rnd = random.Random(ctx.seed + 11)
-    inputs = list(rs.dump_inputs(dump + ".dump" if os.path.exists(dump + ".dump") else dump))
+    inputs = rs.sorted_inputs(dump + ".dump" if os.path.exists(dump + ".dump") else dump)
     if 2 * len(inputs) != res.distinct:
         raise tlc.MachineryError("dump has %d input states, TLC reported %d states" % (len(inputs), res.distinct))
-    inputs.sort(key=repr)
-    items = []
-    for n, inp in enumerate(inputs):
-        F = [dict(f) for f in inp["F"]]
-        rnd.shuffle(F)
-        case = {"s": inp["s"], "F": F, "mode": inp["mode"], "xseed": rnd.randint(0, 10**6), "two": n % 4 == ctx.seed % 4}
-        items.extend(run_case("s%d" % n, case))
-        out.add_case((inp["s"], sorted(rs.filter_strings(F)), inp["mode"]), nontrivial=bool(F) and bool(inp["s"]))
+    n_items = n_empty = 0
+    batch = 30000
+    for b0 in range(0, len(inputs), batch):
+        items = []
+        for n in range(b0, min(b0 + batch, len(inputs))):
+            inp = json.loads(inputs[n])
+            F = inp["F"]
+            rnd.shuffle(F)
+            case = {"s": inp["s"], "F": F, "mode": inp["mode"], "xseed": rnd.randint(0, 10**6), "two": n % 4 == ctx.seed % 4}
+            items.extend(run_case("s%d" % n, case))
+            out.add_case((inp["s"], sorted(rs.filter_strings(F)), inp["mode"]), nontrivial=bool(F) and bool(inp["s"]))
+        n_items += len(items)
+        n_empty += sum(1 for it in items if "out" in it and rs.has_empty_parallel(it["out"]))
+        _report(validate(items, out), out)
     out.exhaustive = True
-    out.note("leg S2C: %d TLC input states run on TaskFilterTrackProcessor + Allocator (%d challenges)" % (len(inputs), len(items)))
+    out.note("leg S2C: %d TLC input states run on TaskFilterTrackProcessor + Allocator (%d challenges)" % (len(inputs), n_items))
     rcases = random_cases(ctx.seed + 1100, 400 if ctx.quick else 6000)
+    items = []
     for n, case in enumerate(rcases):
         items.extend(run_case("r%d" % n, case))
         out.add_case((case["s"], sorted(rs.filter_strings(case["F"])), case["mode"]))
-    ex = [it for it in items if "crash" not in it and it["id"].startswith("r") and it["out"] != it["s"] and it["out"]][:2]
+    ex = [it for it in items if "crash" not in it and it["out"] != it["s"] and it["out"]][:2]
     for it in ex:
         out.sample({"schedule": _short(it["s"]), "mode": it["mode"], "filters": rs.filter_strings(it["F"]), "filtered": _short(it["out"]), "progress_entries": it["tpj"]})
-    out.extra["filtered_schedules_with_empty_parallel"] = sum(1 for it in items if "out" in it and rs.has_empty_parallel(it["out"]))
-    for it, clauses, sub in validate(items, out):
+    n_empty += sum(1 for it in items if "out" in it and rs.has_empty_parallel(it["out"]))
+    out.extra["filtered_schedules_with_empty_parallel"] = n_empty
+    _report(validate(items, out), out)
+
+
+def _report(bad, out):
+    for it, clauses, sub in bad:
         if "crash" in it:
             detail = "crash=%s schedule=%s" % (it["crash"], _short(it["s"]))
         else:
